@@ -24,9 +24,14 @@ import time
 
 VERIF = os.path.dirname(os.path.dirname(os.path.abspath(__file__)))
 REPO = os.environ.get("VERIF_REPO", "/repo")
-COQ = os.path.join(VERIF, "coq")
+COQ_MAIN = os.path.join(VERIF, "coq")
+COQ = COQ_MAIN   # replaced below for a scratch worktree
 ALT = os.path.abspath(REPO) != "/repo"   # a scratch worktree: separate work dir, no evidence, no gen
 WORK = os.path.join(VERIF, ".work") if not ALT else os.path.join(VERIF, ".work", "alt-" + hashlib.sha1(os.path.abspath(REPO).encode()).hexdigest()[:8])
+if ALT:
+    # a private copy of the Coq development (sources and compiled files, timestamps kept), so
+    # that tables regenerated from the scratch worktree do not disturb the main tree
+    COQ = os.path.join(WORK, "coq")
 GOENV = dict(os.environ, GOFLAGS="-mod=mod", GOPROXY="off", GOSUMDB="off", GOTOOLCHAIN="local",
              CGO_ENABLED=os.environ.get("CGO_ENABLED", "0"))
 
@@ -56,8 +61,8 @@ def run(cmd, cwd=None, env=None, timeout=1200, shell=False):
 
 
 class Lock:
-    def __init__(self, name):
-        base = os.path.join(VERIF, ".work") if name in ("coq", "gen") else WORK
+    def __init__(self, name, main=False):
+        base = os.path.join(VERIF, ".work") if main else WORK
         os.makedirs(base, exist_ok=True)
         self.path = os.path.join(base, name + ".lock")
 
@@ -97,7 +102,11 @@ def regenerate():
     if not os.path.exists(os.path.join(tdir, "go.mod")):
         return True, "no translator", []
     if ALT:
-        return True, "alternate repository: generated tables are not refreshed", []
+        os.makedirs(COQ, exist_ok=True)
+        with Lock("coq"), Lock("coq", main=True):
+            run(["rsync", "-a", "--delete", "--exclude", "gen/*.v", "--exclude", "gen/*.vo", "--exclude", "gen/*.glob",
+                 "--exclude", "gen/*.vos", "--exclude", "gen/*.vok", "--exclude", ".*.aux", "--exclude", "Makefile*",
+                 "--exclude", ".Makefile.d", "--exclude", "_CoqProject", COQ_MAIN + "/", COQ + "/"])
     failed = []
     msgs = []
     with Lock("gen"):
